@@ -162,4 +162,57 @@ def coverVal (τ : List Nat → Bool) (t : Tree) (p : List Nat) : Bool :=
   | some c => τ (p ++ c)
   | none => false
 
+/-! ### named elements which cover an operation (a parenthesised operand, say)
+
+Such an element has no term of its own. The search engine reports its name when the clause built for
+the operation matched; `matching_from_names` then puts its path among the matching ones. -/
+
+/-- Relative path of the operation covered by the element `t`: descend through the single-operand
+nodes; `none` when a term-like node (or `NoneItem`) is met first. -/
+def coverOp : Tree → Option (List Nat)
+  | .op .. => some []
+  | .term .. => none
+  | .range .. => none
+  | .approx .. => none
+  | .none _ => none
+  | .field _ e _ => (coverOp e).map (0 :: ·)
+  | .group _ e _ => (coverOp e).map (0 :: ·)
+  | .boost e _ _ => (coverOp e).map (0 :: ·)
+  | .unary _ e _ => (coverOp e).map (0 :: ·)
+  | .orange _ e _ _ => (coverOp e).map (0 :: ·)
+
+/-- no negation on the chain from the root of `t` (inclusive) down to the operation it covers -/
+def negFreeOp : Tree → Bool
+  | .unary .not _ _ => false
+  | .unary .prohibit _ _ => false
+  | .unary .plus e _ => negFreeOp e
+  | .field _ e _ => negFreeOp e
+  | .group _ e _ => negFreeOp e
+  | .boost e _ _ => negFreeOp e
+  | .orange _ e _ _ => negFreeOp e
+  | .term .. | .range .. | .approx .. | .op .. | .none _ => true
+
+/-- no negation STRICTLY between the element `t` and the operation it covers (`t` itself may be a
+negation) -/
+def negFreeBelow : Tree → Bool
+  | .unary _ e _ => negFreeOp e
+  | .field _ e _ => negFreeOp e
+  | .group _ e _ => negFreeOp e
+  | .boost e _ _ => negFreeOp e
+  | .orange _ e _ _ => negFreeOp e
+  | .term .. | .range .. | .approx .. | .op .. | .none _ => true
+
+/-- the value of a node before its own negation is applied: of its operand for `NOT` / `-`, its own
+otherwise. This is what the override `path in matching` of `_propagate` stands for. -/
+def preVal (d : Bool) (τ : List Nat → Bool) (path : List Nat) (t : Tree) : Bool :=
+  if isNeg t then !evalT d τ path t else evalT d τ path t
+
+/-- truth of the operation covered by the element at `p` (false when it covers none) -/
+def coverOpVal (d : Bool) (τ : List Nat → Bool) (t : Tree) (p : List Nat) : Bool :=
+  match (t.at? p).bind coverOp with
+  | some c => match t.at? (p ++ c) with
+    | some o => evalT d τ (p ++ c) o
+    | none => false
+  | none => false
+
 end Luqum.Lemmas.Propagate
